@@ -84,8 +84,11 @@ func verifRepo() string {
 
 var (
 	c14Good = []string{"0", "1", "-1", "2.5", "-0.5", "1e3", "1E-3", "+7", ".5", "5.", "1.0e+00", "-0.118893E+02",
-		"inf", "-Inf", "NaN", "0x1p-2", "1e-320", "3.4e38", "1e300", "-0", "00012", "infinity", "1_000"}
-	c14Bad = []string{"abc", "1e999", "-1e999", "1..2", "--1", "0x", "1e", "1,5", "1.0f", "e5", "1__0", "_1", "0x1", "+", ".", "1e+", "nan1"}
+		"inf", "-Inf", "NaN", "0x1p-2", "1e-320", "3.4e38", "1e300", "-0", "00012", "infinity", "1_000",
+		"0e-999999999999999999", "-2.5e-77777777777777", "0e999999999999"}
+	c14Bad = []string{"abc", "1e999", "-1e999", "1..2", "--1", "0x", "1e", "1,5", "1.0f", "e5", "1__0", "_1", "0x1", "+", ".", "1e+", "nan1",
+		// exponents with many digits (a hand-written number parser that scales in a loop never gets through them)
+		"1e999999999999999999", "1e99999999999", "1e+000000000000000000000000000000400"}
 	c14Sep = []string{" ", "  ", "\t", " \t ", " ", "\v", "\f", " "}
 	c14Key = []string{"solid foo", "facet normal 0 0 1", "facet normal 0.955654E-01 -0.966960E+00 0.236339E+00", "outer loop",
 		"endloop", "endfacet", "endsolid foo", "solid", "endsolid"}
